@@ -449,7 +449,7 @@ fn models(tier: &str) -> Vec<M> {
     if quick {
         vec![M { depth: 5, cfg: WorldCfg::default() }, M { depth: 4, cfg: enc }]
     } else {
-        vec![M { depth: 6, cfg: WorldCfg::default() }, M { depth: 5, cfg: enc }]
+        vec![M { depth: 7, cfg: WorldCfg::default() }, M { depth: 6, cfg: enc }]
     }
 }
 
